@@ -722,6 +722,63 @@ def sib4_pairs(ctx, f, tag):
            "Ok(None) is returned only after end() restored the array signature", ne.where)
 
 
+def sib4_opener_users(ctx, f, tag):
+    """SIB-4:opener-users (added after seeded change C02b): D-Bus `ArrayDeserializer::new` leaves the *element* signature
+    in the shared cursor and keeps the array's in `array_signature`. Whoever calls it must, on every success path,
+    hand the object on (wrapper / visitor), call its `end()`, or put `array_signature` back itself — otherwise the
+    next sibling (second `ay` of an `aay`) is decoded with the element signature."""
+    AD = "zvariant::dbus::de::ArrayDeserializer"
+    n = 0
+    for b in f.all_bodies("zvariant"):
+        if b.d.get("impl_adt") == AD:
+            continue
+        for c in mir.calls(b):
+            if not (c.callee.startswith(AD + "::") and c.is_("new")):
+                continue
+            n += 1
+            der = mir.derives(b, {c.dest[0]})
+            closes = set()
+            escapes = False
+            for x in mir.calls(b):
+                if x is c or not any(l in der for a in x.args for l in mir.operand_locals(a)):
+                    continue
+                nm = x.callee.rsplit("::", 1)[-1]
+                if x.callee.startswith(AD + "::") and nm == "end":
+                    closes.add(x.b)
+                elif nm in ("branch", "from_residual", "into_future", "deref", "deref_mut", "drop_in_place"):
+                    continue
+                elif x.callee.startswith(AD + "::") or nm in ("len",):
+                    continue
+                else:
+                    # the object itself (not a number read from it) is passed on: that owner closes it
+                    tys = x.c.get("argtys") or []
+                    for a, t in zip(x.args, tys):
+                        if "ArrayDeserializer<" in t and any(l in der for l in mir.operand_locals(a)):
+                            escapes = True
+            for bi, i, pl, rv, ln in mir.assignments(b):
+                if rv[0] == "agg" and rv[1] in ("adt",) and not str(rv[2]).startswith("core::"):
+                    for op in rv[4]:
+                        l = mir.op_local(op)
+                        if l is not None and l in der and "ArrayDeserializer<" in b.locals[l][0]:
+                            escapes = True
+            for st in lc.field_writes(b, "signature", lc.DE_COMMON):
+                if classify_sig_store(b, st) == "restore":
+                    closes.add(st[0])
+            ok = escapes
+            why = "the access object is handed on to its wrapper / the visitor"
+            if not escapes:
+                oks = lc.ok_returns(b)
+                after = mir.reachable(b, [c.b])
+                ok = bool(closes) and all((bb not in after) or lc.always_preceded(b, bb, closes) or bb in closes for bb, rv in oks)
+                # generic: every normal return reachable from the opener passes a closer
+                leak = [e for e in mir.exits(b) if e in mir.reachable(b, [c.c["t"]] if c.c["t"] is not None else [], avoid=closes | {x.b for x in mir.calls(b) if x.is_("from_residual")})]
+                ok = bool(closes) and not leak
+                why = "every success path after the opener calls end() / restores array_signature" if ok else \
+                    "a success path leaves %s without end() or a restore of array_signature: the element signature stays in the cursor" % lc.short(b)
+            ctx.ob("SIB-4", tag + K(b, "opener-user-closes"), ok, why, c.where)
+    ctx.floor("SIB-4", tag + "users of dbus ArrayDeserializer::new outside its own impl", n, 3)
+
+
 # ============================================================================================ LEN
 def len_rule(ctx, f, tag=""):
     DATA = "zvariant::serialized::data::Data"
@@ -894,6 +951,7 @@ def run(ctx):
     sib3(ctx, f, spec)
     judged = sib4(ctx, f, "", DBUS_FILES)
     sib4_pairs(ctx, f, "")
+    sib4_opener_users(ctx, f, "")
     len_rule(ctx, f)
     pos_rule(ctx, f)
     f2 = ctx.facts("K2")
@@ -901,4 +959,5 @@ def run(ctx):
     sib1_gv(ctx, f2, spec, lays2)
     sib4(ctx, f2, "K2:", DBUS_FILES + GV_FILES, skip=judged)
     sib4_pairs(ctx, f2, "K2:")
+    sib4_opener_users(ctx, f2, "K2:")
     len_rule(ctx, f2, "K2:")
